@@ -97,6 +97,11 @@ CHECKS = {
   text="Model checking with conformance (exhaustive product): Select.tla holds the registry, the selection mechanism and the contract (pre-import wins; known name selects or fails loudly; unknown name reported then auto-detection in registry order; reported name identifies module and field); TLC checks the contract on the mechanism and enumerates configurations (pre-imports: none/each single backend, ordered pairs in thorough; PYSNARK_BACKEND: 8 names, unset, unknown; 8 subsets of optional dependencies); each is run in a fresh interpreter, reporting name, module, modulus, interface attributes, messages and the module whose constraint list grows; TLC judges contract, interface completeness and sink.",
   note="libsnark / flatbuffers are import-only stand-ins and qaptools executables stubs: only selection is judged. IPython branch not exercised. Known finding: specific backend modules are reported under their generic name.",
   design="5/C19", category="model_checking"),
+ "C20": dict(
+  technique="TLC evaluation of a TLA+ Poseidon / subset-sum reference (Poseidon.tla, TraceHash.tla) on recorded gadget runs over a small prime; PoseidonDesign.tla for padding injectivity; HashFacts.tla for published vectors (limb comparison) and parameter selection per interpreter",
+  text="Model checking by trace validation: the traced permutation and sponge are run on the recording backend over P=32749 with the real parameter tables (bn128 set, bls12-381 set, toy set; TLC reduces the constants mod P itself) for all/sampled inputs in {0,1,2}^k up to 3 blocks, random field elements and boolean / fixed-point typed inputs, and TLC recomputes every output with Poseidon.tla; constraint counts are equal across inputs of a class; subset-sum over all bit vectors up to length 6 with independently derived SHA-512 coefficients; padding injectivity is model checked on the spec for 1.2M message pairs; the published x5_254_5 / x5_255_5 permutation vectors are reproduced on the real zkinterface / bellman configurations; 18 selection paths (environment, pre-import, auto-detection) each in a fresh interpreter are judged for the parameter set in use.",
+  note="Reference parameters are the repository's tables as data; no published vector exists for the curve25519 set; known finding: parameters follow the generic name when a specific zkinterface module is pre-imported (C19).",
+  design="5/C20"),
 }
 
 NOT_YET = "check not built yet in this round (planned, see DESIGN.md section 5)"
